@@ -21,7 +21,6 @@ const (
 	nKeys    = 6
 	curEpoch = 10
 
-	fpSearchCID = "C28:search-eacl-container-id-header-missing"
 	fpBinXHdr   = "C28:binary-header-recheck-drops-xheaders"
 )
 
@@ -172,7 +171,7 @@ func opIdx(op string) uint {
 	panic("bad op " + op)
 }
 
-func genFilter(t *rapid.T, recOp string, searchCID bool) filterSpec {
+func genFilter(t *rapid.T, recOp string) filterSpec {
 	type kind int
 	const (
 		fReq kind = iota
@@ -189,9 +188,7 @@ func genFilter(t *rapid.T, recOp string, searchCID bool) filterSpec {
 	case kRange, kDelete, kHash:
 		kinds = append(kinds, fCID, fOID)
 	case kSearch:
-		if searchCID {
-			kinds = append(kinds, fCID)
-		}
+		kinds = append(kinds, fCID)
 	default: // GET HEAD PUT: whole object header is available to the node
 		kinds = append(kinds, fCID, fOID, fOwner, fOwner, fType, fEpoch, fSize, fAttr, fAttr)
 	}
@@ -250,7 +247,7 @@ func genTarget(t *rapid.T, requester int) targetSpec {
 	}
 }
 
-func genTable(t *rapid.T, label string, focusOp string, requester int, searchCID bool) tableSpec {
+func genTable(t *rapid.T, label string, focusOp string, requester int) tableSpec {
 	var tb tableSpec
 	n := rapid.IntRange(0, 5).Draw(t, label+"-nrec")
 	for i := 0; i < n; i++ {
@@ -267,7 +264,7 @@ func genTable(t *rapid.T, label string, focusOp string, requester int, searchCID
 		}
 		nf := rapid.SampledFrom([]int{0, 0, 1, 1, 2}).Draw(t, "nfilters")
 		for j := 0; j < nf; j++ {
-			r.Filters = append(r.Filters, genFilter(t, r.Op, searchCID))
+			r.Filters = append(r.Filters, genFilter(t, r.Op))
 		}
 		tb.Records = append(tb.Records, r)
 	}
@@ -298,7 +295,6 @@ func genMask(t *rapid.T, effOp string, role string) uint32 {
 
 func genCase(t *rapid.T) caseSpec {
 	var c caseSpec
-	searchCID := !ev.IsOpen("C28", fpSearchCID)
 
 	c.Req = rapid.SampledFrom(reqKinds).Draw(t, "req")
 	c.TTL = uint32(rapid.IntRange(1, 2).Draw(t, "ttl"))
@@ -344,14 +340,14 @@ func genCase(t *rapid.T) caseSpec {
 	c.Mask = genMask(t, effOp, roleClass)
 
 	if rapid.IntRange(0, 4).Draw(t, "has-stored") != 0 {
-		tb := genTable(t, "stored", effOp, c.Requester, searchCID)
+		tb := genTable(t, "stored", effOp, c.Requester)
 		tb.Cnr = 1
 		c.Stored = &tb
 	}
 
 	if rapid.IntRange(0, 9).Draw(t, "has-bearer") < 4 {
 		b := &bearerSpec{Issuer: c.Owner, ForUser: -1, Iat: 1, Nbf: 1, Exp: 100}
-		b.Table = genTable(t, "bearer", effOp, c.Requester, searchCID)
+		b.Table = genTable(t, "bearer", effOp, c.Requester)
 		b.Table.Cnr = rapid.SampledFrom([]int{0, 1, 1}).Draw(t, "bearer-cnr")
 		if rapid.Bool().Draw(t, "bearer-for-requester") {
 			b.ForUser = c.Requester
